@@ -169,12 +169,12 @@ def simulate(shape, slots, first, slices, quantum, no_priority=False):
 F = r'''
 def tree___SHAPE_____SLOTS__(first: int, k1: int, k2: int, quantum: int) -> bool:
     """
-    pre: 0 <= first <= 1 and 0 <= k1 <= KMAX and 0 <= k2 <= KMAX and 1 <= quantum <= 3
+    pre: 0 <= first <= 1 and 0 <= k1 <= KMAX and 0 <= k2 <= K2MAX and 1 <= quantum <= 3
     post: _
     """
     quantum = pick(quantum, 1, 3)
     with NoTracing():
-        return simulate(__SHAPE__, __SLOTS__, first, [k1, k2], quantum)
+        return simulate(__SHAPE__, __SLOTS__, first, [k1, k2] if K2MAX else [k1], quantum)
 '''
 
 EXTRA = r'''
@@ -211,12 +211,13 @@ def _key_from_replay(args, kwargs, replay_out):
 
 def run(ctx: Ctx) -> None:
     thorough = ctx.tier == "thorough"
-    kmax = 60 if thorough else 25
+    kmax = 60 if thorough else 40
+    k2max = 60 if thorough else 0
     src = SRC
     conds = []
     for shape in range(6):
         for slots in (1, 2):
-            src += F.replace("__SHAPE__", str(shape)).replace("__SLOTS__", str(slots)).replace("KMAX", str(kmax))
+            src += F.replace("__SHAPE__", str(shape)).replace("__SLOTS__", str(slots)).replace("K2MAX", str(k2max)).replace("KMAX", str(kmax))
             conds.append(Cond(f"tree_{shape}_{slots}", "confirm", 3000, keyfn=_key_from_replay))
     src += EXTRA.replace("KMAX", str(kmax))
     conds += [Cond("sim_twin", "refute", 60), Cond("canary_no_priority", "refute", 300)]
@@ -225,7 +226,7 @@ def run(ctx: Ctx) -> None:
                               "DistributedInvocation.run / .result and DistributedInvocationGroup.results (real, property twins)",
                               "BaseOrchestrator.get_invocations_to_run (blocking first) / waiting_for_results / set_invocation_status / set_invocation_result (twins), MemBlockingControl"]
     ctx.bounds["call trees"] = (f"6 tree shapes (single child, group of 2, depth 2, two sequential waits, group of 2 with grandchildren, mixed), thread runner with 1 and 2 slots, "
-                                f"in-memory stack; first actor, 2 preemption points 0..{kmax}, then fair round-robin with quantum 1..3; step budget 15000")
+                                f"in-memory stack; first actor, {"2 preemption points" if thorough else "1 preemption point"} 0..{kmax}, then fair round-robin with quantum 1..3; step budget 15000")
     ctx.stubs += ["threading.Thread in thread_runner -> stand-in whose start() registers the real invocation.run twin as a new actor", "pynenc.context.thread_local -> per-actor storage",
                   "task bodies are cooperative generators that `yield from` the real result/results twins; run_task_sync's result is driven as part of the actor", "time.sleep no-op"]
     ctx.assumptions += ["virtual time: fairness = every runnable actor gets at most `quantum` steps per round after the two preemption points", "SQLite stack and retrying tasks are not part of this simulation"]
